@@ -15,7 +15,8 @@ FAMILY = "store"
 HARNESS = {"source": "x_store.c", "leak_clean": True, "extra_sources": ["x_store_body.h", "cifio.h"]}
 RULE = ("random API histories (quick: <= 40 ops, thorough: <= 120 ops) over <= 3 CIFs, <= 4 blocks, frame nesting <= 3, "
         "names from a small pool with case/normalisation variants and invalid forms, live and stale handles, ~50% of the "
-        "ops constructed to fail (each failure kind x each offending position), some inside an open iterator; "
+        "ops constructed to fail (each failure kind x each offending position), some inside an open iterator; plus every combination of "
+        "{nested-savepoint call inside an open iterator} x {1..3 successful updates} x {failing iterator call} x {close, abort}; "
         "non-trivial = at least one failing op and one successful modification; oracle = C05 (failed op: every dump and "
         "autocommit flag unchanged) + C04 invariants and op-specific post-conditions on the dumps")
 
@@ -498,7 +499,7 @@ class History:
             else:
                 # any other op (both intended-good and intended-bad) while the transaction is open
                 kinds = self.FAIL_KINDS if r.random() < 0.6 else self.GOOD_KINDS
-                kk = r.choice([x for x in kinds if x not in ("g_iter", "g_delcif", "f_iter_misuse", "g_cross", "g_session")])
+                kk = r.choice([x for x in kinds if x not in ("g_iter", "g_delcif", "f_iter_misuse", "g_cross", "g_session", "g_iter_sp")])
                 getattr(self, kk)()
         self.op("itclose" if r.random() < 0.6 else "itabort", it)
         self.its[it] = None
@@ -545,7 +546,7 @@ class History:
                         self.op("cif+"); self.cifs.append({})
                     kinds = self.FAIL_KINDS if r.random() < 0.3 else self.GOOD_KINDS
                     for _ in range(12):
-                        kk = r.choice([x for x in kinds if x not in ("g_iter", "f_iter_misuse", "g_cross", "g_session")])
+                        kk = r.choice([x for x in kinds if x not in ("g_iter", "f_iter_misuse", "g_cross", "g_session", "g_iter_sp")])
                         if getattr(self, kk)():
                             break
                     else:
@@ -575,6 +576,68 @@ class History:
         self.op("setval", h, name_tok(names[-1], True), *self.value())
         l.names[norm(names[-1])] = names[-1]
         l.npk = 1
+        return True
+
+    def g_iter_sp(self):
+        """inside ONE open iterator: next; a call on the SAME CIF that works through a nested savepoint and only reads or fails softly
+        (get_names, get_all_loops, get_value, add_packet with a foreign item, create_loop / add_item with a duplicate name — each
+        leaves a `savepoint s` on SQLite's stack: `rollback to s` keeps it); 1..3 SUCCESSFUL updates; a FAILING iterator call
+        (foreign item at the first / middle / last position: CIF_WRONG_LOOP; update / remove without current packet: CIF_MISUSE);
+        next, update, close or abort.  The failed call must not undo the successful updates (C05; seeded change C05_sp)."""
+        r = self.r
+        ls = [l for l in self.live_lhs() if self.lhs[l][0].npk > 0 and not self.in_tx(self.lhs[l][0].cont.cif)
+              and self.lhs[l][0].names]
+        if not ls or r.random() < 0.3:
+            return False
+        li = r.choice(ls)
+        l, h = self.lhs[li]
+        names = list(l.names.values())
+        self.op("itopen", li)
+        it = len(self.its)
+        self.its.append({"loop": l, "lh": li})
+        self.open_it[l.cont.cif] = it
+        self.op("itnext", it)
+        kind = r.choice(["names", "loops", "getval", "addpkt-fail", "mkloop-fail", "additem-fail"])
+        if kind == "names":
+            self.op("names", li)
+        elif kind == "loops":
+            self.op("loops", h)
+        elif kind == "getval":
+            self.op("getval", h, name_tok(r.choice(names), True))
+        elif kind == "addpkt-fail":
+            self.op("addpkt", li, 2, name_tok(names[0], True), *(self.value() + [name_tok("_zz9", True)] + self.value()))
+        elif kind == "mkloop-fail":
+            self.op("mkloop", h, cat_tok("c9"), 2, name_tok("_new9", True), name_tok(names[0], True))
+            self.lhs.append(None)
+        else:
+            self.op("additem", li, name_tok(names[-1], True), *self.value())
+
+        def upd(use):
+            toks = []
+            for nme in use:
+                toks += [name_tok(nme, True)] + self.value()
+            self.op("itupd", it, len(use), *toks)
+        for g in range(r.randint(1, 3)):
+            upd(names[: 1 + (g % len(names))])
+        fk = r.choice(["wrong-first", "wrong-middle", "wrong-last", "misuse-update", "misuse-remove"])
+        if fk.startswith("wrong"):
+            toks = []
+            for nme in names:
+                toks += [name_tok(nme, True)] + self.value()
+            pos = {"wrong-first": 0, "wrong-middle": (len(names) + 1) // 2, "wrong-last": len(names)}[fk]
+            toks = self.splice_pair(toks, pos, [name_tok("_zz9", True)] + self.value())
+            self.op("itupd", it, len(names) + 1, *toks)
+        elif fk == "misuse-update":
+            self.op("itrem", it); l.npk = max(0, l.npk - 1)
+            upd(names[:1])
+        else:
+            self.op("itrem", it); l.npk = max(0, l.npk - 1)
+            self.op("itrem", it)
+        self.op("itnext", it)
+        upd(names)
+        self.op("itclose" if r.random() < 0.6 else "itabort", it)
+        self.its[it] = None
+        del self.open_it[l.cont.cif]
         return True
 
     def ensure_loop_handle(self, h, loop):
@@ -964,14 +1027,34 @@ class History:
 
     GOOD_KINDS = (["g_mkblock"] * 3 + ["g_getblock"] * 2 + ["g_mkframe"] * 3 + ["g_getframe"] * 2 + ["g_mkloop"] * 6 + ["g_setval_new"] * 4
                   + ["g_setval_old"] * 3 + ["g_addpkt"] * 8 + ["g_additem"] * 2 + ["g_rmitem"] * 3 + ["g_query"] * 6 + ["g_setcat"]
-                  + ["g_prune", "g_ldestroy", "g_cdestroy", "g_cdestroy", "g_newcif", "g_delcif"] + ["g_iter"] * 3 + ["g_cross"] * 4 + ["g_session"] * 6 + ["g_scalar_nopkt"])
+                  + ["g_prune", "g_ldestroy", "g_cdestroy", "g_cdestroy", "g_newcif", "g_delcif"] + ["g_iter"] * 3 + ["g_cross"] * 4 + ["g_session"] * 6 + ["g_scalar_nopkt"] + ["g_iter_sp"] * 4)
     FAIL_KINDS = (["f_mkblock"] * 2 + ["f_mkframe"] * 2 + ["f_lookup"] * 2 + ["f_mkloop"] * 6 + ["f_addpkt"] * 6 + ["f_item"] * 5
                   + ["f_setcat"] * 2 + ["f_stale_loop"] * 2 + ["f_iter_misuse"])
+
+
+def savepoint_histories(tier):
+    """EVERY combination of {nested-savepoint call inside an open iterator} x {1..3 successful updates} x {failing iterator call}
+    x {close, abort} (tools/gen/iter.py `savepoint_sessions`), as histories of this family: C05's oracle (a failed call changes
+    nothing the dumps show, inside the iterator's transaction too) sees each of them; quick: one loop shape per combination, in
+    rotation; thorough: three shapes each"""
+    import importlib
+    I = importlib.import_module("iter")
+    shapes = [("l2x3", 2, 3, False, False), ("s2", 2, 1, True, False), ("l3x1", 3, 1, False, False)]
+    gens = []
+    for shp in shapes:
+        pre, names = I.setup(*shp)
+        gens.append(list(I.savepoint_sessions(pre, names)))
+    for k in range(len(gens[0])):
+        for j, g in enumerate(gens):
+            if tier != "quick" or j == k % len(gens):
+                yield "store " + g[k].split(" ", 1)[1]
 
 
 def generate(seed, tier):
     r = rng(seed, FAMILY)
     n, maxlen = (1500, 40) if tier == "quick" else (12000, 120)
+    for req in savepoint_histories(tier):
+        yield req
     for _ in range(n):
         yield "store " + " ".join(History(r, maxlen).toks)
 
